@@ -52,10 +52,20 @@ func (n mockValidators) TotalVotingPower(height types.Height) types.VotingPower 
 // The special case is for precommits from sync protocol, to be removed once
 // we can extract precommits from the sync protocol messages.
 func (n mockValidators) ValidatorVotingPower(height types.Height, addr *starknet.Address) types.VotingPower {
-	if addr != nil && *addr == consensusSync.SyncProtocolPrecommitSender {
+	if addr == nil {
+		return types.VotingPower(0)
+	}
+	if *addr == consensusSync.SyncProtocolPrecommitSender {
 		return types.VotingPower(len(n))
 	}
-	return types.VotingPower(1)
+	// Only the members of the validator set have voting power: an address that is not one of the
+	// mock nodes must not contribute to any quorum.
+	for i := range n {
+		if *addr == mockNodeAddress(i) {
+			return types.VotingPower(1)
+		}
+	}
+	return types.VotingPower(0)
 }
 
 // Randomised proposer selection, with prime coefficients so that for each height, the order of proposers is different.
